@@ -1,7 +1,7 @@
 (** C06 - the entry diff reports exactly the differing keys, once each, in order.
     Statements only; proofs are in DiffSpec.v and DiffK.v. *)
 From Coq Require Import List NArith ZArith Bool Sorting.Sorted.
-From Mast Require Import WorldInv Prim Key Tree KeyOrder Codec Store Diff World Erase Build Spec Canon Links Level Inv Hist Reload DiffSpec DiffK.
+From Mast Require Import WorldInv Prim Key Tree KeyOrder Codec Store Diff World Erase Build Spec Canon Links Level Inv Hist Reload DiffSpec DiffK DiffAlg.
 Import ListNotations.
 
 Section GENERIC.
@@ -87,6 +87,59 @@ Example C06_example :
           DoEntry true false (KUint 8%N) (Some [61%N]) None].
 Proof. vm_compute. reflexivity. Qed.
 
+(** Algebraic consequences (DiffAlg.v), for any key order and any value equality test that decides
+    equality: the diff is silent exactly when the two trees hold the same contents, and the diff
+    taken in the other direction reports the mirror image (added <-> removed, old <-> new value)
+    of each event, in the same order. *)
+Section ALGEBRA.
+Variables (K V : Type) (cmp : K -> K -> comparison) (veq : V -> V -> bool) (layer : K -> nat).
+Hypothesis cmp_eq : forall a b, cmp a b = Eq <-> a = b.
+Hypothesis cmp_antisym : forall a b, cmp b a = CompOpp (cmp a b).
+Hypothesis veq_eq : forall x y, veq x y = true <-> x = y.
+Variable P : name -> node K V -> Prop.
+Hypothesis hered : forall h c, P h c -> allh K V P c.
+Hypothesis Pfun : forall h a b, P h a -> P h b -> a = b.
+
+Theorem C06_no_events_iff_equal_listings : forall a b, sdiff K V cmp veq a b = [] <-> a = b.
+Proof. exact (sdiff_empty_iff K V cmp veq cmp_eq veq_eq). Qed.
+
+Theorem C06_reverse_is_mirror_spec : forall a b, sdiff K V cmp veq b a = map (mirror K V) (sdiff K V cmp veq a b).
+Proof. exact (sdiff_mirror K V cmp veq cmp_eq cmp_antisym veq_eq). Qed.
+
+Theorem C06_silent_iff_equal : forall bf (mo mn : mast K V) lo ln,
+  canon K V cmp layer bf mo lo -> canon K V cmp layer bf mn ln ->
+  allh_l K V P (m_root _ _ mo) -> allh_l K V P (m_root _ _ mn) ->
+  oks (diff _ _ cmp veq layer (Some mo) mn) (fun r => filter (is_entry K V) r = [] <-> lo = ln).
+Proof. exact (diff_silent_iff_equal K V cmp veq layer cmp_eq veq_eq P hered Pfun). Qed.
+
+Theorem C06_reverse_is_mirror : forall bf (mo mn : mast K V) lo ln,
+  canon K V cmp layer bf mo lo -> canon K V cmp layer bf mn ln ->
+  allh_l K V P (m_root _ _ mo) -> allh_l K V P (m_root _ _ mn) ->
+  oks (diff _ _ cmp veq layer (Some mo) mn) (fun r =>
+    oks (diff _ _ cmp veq layer (Some mn) mo) (fun r' =>
+      filter (is_entry K V) r' = map (mirror K V) (filter (is_entry K V) r))).
+Proof. exact (diff_reverse_is_mirror K V cmp veq layer cmp_eq cmp_antisym veq_eq P hered Pfun). Qed.
+End ALGEBRA.
+
+(** the library's key order and value test meet those hypotheses *)
+Theorem C06_library_key_order_eq : forall a b, kcmp a b = Eq <-> a = b.
+Proof. exact kcmp_eq. Qed.
+Theorem C06_library_key_order_antisym : forall a b, kcmp b a = CompOpp (kcmp a b).
+Proof. exact kcmp_antisym. Qed.
+Theorem C06_library_value_test : forall x y, bytes_eqb x y = true <-> x = y.
+Proof. exact bytes_eqb_eq. Qed.
+
+(** non-vacuity: the example above, taken in the other direction, is its mirror image *)
+Definition ex_a : list (key * val) := [(KUint 1%N, [49%N]); (KUint 2%N, [50%N]); (KUint 4%N, [51%N])].
+Definition ex_b : list (key * val) := [(KUint 2%N, [60%N]); (KUint 4%N, [51%N]); (KUint 8%N, [61%N])].
+Example C06_mirror_example :
+  sdiff key val kcmp bytes_eqb ex_b ex_a = map (mirror key val) (sdiff key val kcmp bytes_eqb ex_a ex_b).
+Proof. vm_compute. reflexivity. Qed.
+Example C06_mirror_example_nonempty : length (sdiff key val kcmp bytes_eqb ex_a ex_b) = 3%nat.
+Proof. vm_compute. reflexivity. Qed.
+Example C06_self_example : sdiff key val kcmp bytes_eqb ex_a ex_a = [].
+Proof. vm_compute. reflexivity. Qed.
+
 Print Assumptions C06_diff_is_merge_difference.
 Print Assumptions C06_diff_against_nil.
 Print Assumptions C06_exactly_the_differing_keys.
@@ -95,3 +148,10 @@ Print Assumptions C06_entries_only.
 Print Assumptions C06_names_are_functional.
 Print Assumptions C06_diff.
 Print Assumptions C06_in_histories.
+Print Assumptions C06_no_events_iff_equal_listings.
+Print Assumptions C06_reverse_is_mirror_spec.
+Print Assumptions C06_silent_iff_equal.
+Print Assumptions C06_reverse_is_mirror.
+Print Assumptions C06_library_key_order_eq.
+Print Assumptions C06_library_key_order_antisym.
+Print Assumptions C06_library_value_test.
